@@ -225,6 +225,7 @@ class RecordingConn:
         self.received_name = ""
         self.sent = []
         self.subscribed = []
+        self.callbacks = []  # (callback, message types) registered by the client
         self._loop = asyncio.get_event_loop()
 
     def set_log_name(self, n):
@@ -239,11 +240,13 @@ class RecordingConn:
 
     def add_message_callback(self, cb, msg_types):
         self.subscribed.extend(msg_types)
+        self.callbacks.append((cb, msg_types))
         return lambda: None
 
     def send_message_callback_response(self, send_msg, on_message, msg_types):
         self.sent.append(type(send_msg))
         self.subscribed.extend(msg_types)
+        self.callbacks.append((on_message, msg_types))
         return lambda: None
 
     async def send_messages_await_response_complex(self, messages, do_append, do_stop, msg_types, timeout):
@@ -277,6 +280,27 @@ async def _acb(*a, **k):
     return None
 
 
+async def _acb_pending(*a, **k):
+    # a user handler that is still running (e.g. a voice-assistant start handler bringing a server up)
+    await asyncio.get_running_loop().create_future()
+
+
+def _instances(cls) -> list:
+    """message instances to hand to a registered callback: the default one and one with every bool set."""
+    out = [cls()]
+    try:
+        m = cls()
+        from google.protobuf.descriptor import FieldDescriptor as FD
+
+        for f in cls.DESCRIPTOR.fields:
+            if f.type == FD.TYPE_BOOL and not f.is_repeated:
+                setattr(m, f.name, True)
+        out.append(m)
+    except Exception:  # noqa: BLE001
+        pass
+    return out
+
+
 def _cb(*a, **k):
     return None
 
@@ -296,7 +320,9 @@ def _arg_for(pname: str, ann: str, b: bool, o: int, n: int):
     if "Callable" in a:
         if optional and o == 0:
             return None
-        return _acb if "Coroutine" in a or "Awaitable" in a else _cb
+        if "Coroutine" in a or "Awaitable" in a:
+            return _acb_pending if b else _acb
+        return _cb
     if optional and o == 0:
         return None
     if a.startswith("bool"):
@@ -327,42 +353,63 @@ def h13_sweep(mi: int, b0: bool, b1: bool, o0: int, o1: int, o2: int, o3: int, n
     post: _
     """
     track.entered()
-    loop = base_loop()
-    name = METHODS[MSEL]
-    cli = CL.APIClient("10.0.0.1", 6053, None)
-    conn = RecordingConn(APIVersion(major, minor))
-    cli._connection = conn
-    meth = getattr(cli, name)
-    sig = inspect.signature(meth)
-    bools = [b0, b1]
-    opts = [o0, o1, o2, o3]
-    kwargs = {}
-    bi = oi = 0
-    for pn, p in sig.parameters.items():
-        ann = p.annotation if isinstance(p.annotation, str) else getattr(p.annotation, "__name__", str(p.annotation))
-        kwargs[pn] = _arg_for(pn, ann, bools[bi % 2], opts[oi % 4], n0)
-        if ann.replace(" ", "").startswith("bool"):
-            bi += 1
-        if "None" in ann:
-            oi += 1
-    coro = None
+    from vf.simloop import SimLoop
+
+    loop = SimLoop().activate()
     try:
-        r = meth(**kwargs)
-        if inspect.iscoroutine(r):
-            coro = r
+        name = METHODS[MSEL]
+        cli = CL.APIClient("10.0.0.1", 6053, None)
+        conn = RecordingConn(APIVersion(major, minor))
+        cli._connection = conn
+        meth = getattr(cli, name)
+        sig = inspect.signature(meth)
+        bools = [b0, b1]
+        opts = [o0, o1, o2, o3]
+        kwargs = {}
+        bi = oi = 0
+        for pn, p in sig.parameters.items():
+            ann = p.annotation if isinstance(p.annotation, str) else getattr(p.annotation, "__name__", str(p.annotation))
+            kwargs[pn] = _arg_for(pn, ann, bools[bi % 2], opts[oi % 4], n0)
+            if ann.replace(" ", "").startswith("bool"):
+                bi += 1
+            if "None" in ann:
+                oi += 1
+        coro = None
+        unsub = None
+        try:
+            r = meth(**kwargs)
+            if inspect.iscoroutine(r):
+                coro = r
+                try:
+                    r.send(None)  # run to the first suspension: everything is sent/registered before it
+                except StopIteration:
+                    pass
+                except Exception:  # noqa: BLE001
+                    pass
+            elif callable(r):
+                unsub = r
+        except Exception:  # noqa: BLE001 - argument combination rejected by the method: nothing to check
+            pass
+        # what the client sends in reaction to device messages and on unsubscribing (also while a user
+        # handler is still running) counts as client traffic too
+        for cb, types in list(conn.callbacks):
+            for t in types:
+                for m in _instances(t):
+                    try:
+                        cb(m)
+                    except Exception:  # noqa: BLE001
+                        pass
+        loop.run_ready()
+        if unsub is not None:
             try:
-                r.send(None)  # run to the first suspension: everything is sent/registered before it
-            except StopIteration:
-                pass
+                unsub()
             except Exception:  # noqa: BLE001
                 pass
-        elif callable(r):
-            r()  # unsubscribe functions send too
-    except Exception:  # noqa: BLE001 - argument combination rejected by the method: nothing to check
-        pass
-    finally:
+            loop.run_ready()
         if coro is not None:
             coro.close()
+    finally:
+        loop.shutdown()
     if track.reached():
         return False
     for c in conn.sent:
